@@ -136,11 +136,13 @@ Definition factors_same (a b : list (str * nat)) : bool :=
     verdict: 0 ok; 1 [glue_ok] rejects; 4 raised; 6 start symbol differs; 7 the method argument
     is not honoured; 8 a factor / domain is bound to a label that is not in the new grammar's
     label tables; 9 factors / domains differ; 20 harness error; 10 differs from the model;
-    11 model raises *)
+    11 model raises.  [skip]: bit 0 = do not test the method, bit 1 = do not test the label
+    tables (set by the harness on a second evaluation of a case that got verdict 7 / 8, so
+    that a known finding does not hide anything else) *)
 Definition fz_gram_check
   (x : bool * nat * list nat * fhrg_w * list (ftd * list (list nat)) * list (list frule_w)
-       * (nat * fhrg_w) * (list (nat * nat) * list (list nat * nat) * list (nat * nat) * list (list nat * nat))) : nat :=
-  let '(is_fgg, m, used, gw, orc, outsw, (code, gnw), (doms, facs, doms', facs')) := x in
+       * (nat * nat * fhrg_w) * (list (nat * nat) * list (list nat * nat) * list (nat * nat) * list (list nat * nat))) : nat :=
+  let '(is_fgg, m, used, gw, orc, outsw, (code, skip, gnw), (doms, facs, doms', facs')) := x in
   let g := fhrg_of_w gw in
   let gnew := fhrg_of_w gnw in
   let outs := map (map frule_of_w) outsw in
@@ -150,9 +152,10 @@ Definition fz_gram_check
        | 0 =>
          if negb (elabel_eqb (fh_start gnew) (fh_start g)) then 6
          else if negb (glue_ok g outs gnew) then 1
-         else if negb (forallb (Nat.eqb m) used) then 7
+         else if negb (Nat.odd skip) && negb (forallb (Nat.eqb m) used) then 7
          else if is_fgg && negb (pairs_same doms doms' && factors_same facs facs') then 9
-         else if is_fgg && negb (forallb (fun p => smem (fst p) (map el_name (fh_elabels gnew))) facs'
+         else if is_fgg && negb (Nat.odd (Nat.div2 skip))
+                 && negb (forallb (fun p => smem (fst p) (map el_name (fh_elabels gnew))) facs'
                                  && forallb (fun p => mem (fst p) (fh_nlabels gnew)) doms') then 8
          else
            let model :=
@@ -170,8 +173,8 @@ Definition fz_gram_check
 (** measure only *)
 Definition fz_gram_exact
   (x : bool * nat * list nat * fhrg_w * list (ftd * list (list nat)) * list (list frule_w)
-       * (nat * fhrg_w) * (list (nat * nat) * list (list nat * nat) * list (nat * nat) * list (list nat * nat))) : nat :=
-  let '(is_fgg, m, used, gw, orc, outsw, (code, gnw), (doms, facs, doms', facs')) := x in
+       * (nat * nat * fhrg_w) * (list (nat * nat) * list (list nat * nat) * list (nat * nat) * list (list nat * nat))) : nat :=
+  let '(is_fgg, m, used, gw, orc, outsw, (code, skip, gnw), (doms, facs, doms', facs')) := x in
   let g := fhrg_of_w gw in
   match (if is_fgg then (h <- factorize_hrg_model 0 g (fun _ => orc) ;; from_hrg_model h)
          else factorize_hrg_model m g (fun _ => orc)) with
